@@ -22,6 +22,10 @@ Definition meta_table (p : pat) : re * list (str * nat) :=
   | PYearMatch => (meta_PYearMatch, meta_PYearMatch_names)
   end.
 
+(* eyecite/helpers.py imports the third-party `regex` module as re: the metadata patterns are run with ITS
+   character classes (Gen/Unicode.v: URX), the extractor and reference patterns with the stdlib's (U) *)
+Definition UM : utables := URX.
+
 Definition ed_of_gen (i : nat) : option edition := nth_error editions_tbl i.
 Definition src_of_gen (i : nat) : nat :=
   match nth_error edition_src i with Some p => snd p | None => 9%nat end.
@@ -40,7 +44,7 @@ Section G.
 
   Definition get_citations_text (s : str) (remove_ambiguous : bool) : result (list pcit) :=
     let (words, cits) := tokenize_text s in
-    get_citations (engine_search U meta_table) refs (N.to_nat MAX_MATCH_CHARS) (N.to_nat BACKWARD_SEEK)
+    get_citations (engine_search UM meta_table) refs (N.to_nat MAX_MATCH_CHARS) (N.to_nat BACKWARD_SEEK)
                   DT (Z.of_N highest_valid_year) this_year ed_of_gen src_of_gen valid is_space_gen
                   s words cits remove_ambiguous.
 End G.
